@@ -531,7 +531,9 @@ static unsigned char* ensure(printbuffer * const p, size_t needed)
             return NULL;
         }
 
-        memcpy(newbuffer, p->buffer, p->offset + 1);
+        /* copy what has been written so far, but never more than the old buffer holds
+         * (it is empty when printing started with a prebuffer of 0) */
+        memcpy(newbuffer, p->buffer, ((p->offset + 1) < p->length) ? (p->offset + 1) : p->length);
         p->hooks.deallocate(p->buffer);
     }
     p->length = newsize;
